@@ -355,7 +355,7 @@ def roundtrip(data, budget=3.0):
     signal.setitimer(signal.ITIMER_VIRTUAL, budget)
     try:
         return _roundtrip(data)
-    except Deadline:
+    except (Deadline, MemoryError):  # CPU or memory budget of one case exhausted: not a verdict
         ev = {"ev": "rt", "n": len(data), "parsed": False, "outcome": "timeout", "ser_ok": False, "ser_exc": "", "same_bytes": False, "same_desc": False, "redes_ok": False, "diff_bit": -1, "seqs": []}
         return ev
     finally:
@@ -371,6 +371,8 @@ def _roundtrip(data):
     except EOFError:
         ev["outcome"] = "eof"
         return ev
+    except MemoryError:
+        raise
     except Exception as e:  # noqa
         ev["outcome"] = "raises"
         ev["exc"] = common.exc_signature(e)
@@ -381,6 +383,8 @@ def _roundtrip(data):
     snapshot = strip_state(desc)
     try:
         out = serialise(desc)
+    except MemoryError:
+        raise
     except Exception as e:  # noqa
         ev["ser_exc"] = vc2_frame(e)
         return ev
